@@ -38,7 +38,11 @@ func vpModelDoTest(state *core.BuildState, target *core.BuildTarget, runRemotely
 	dir := target.TestDir(run)
 	os.MkdirAll(dir, 0o755)
 	content, exec := "FAIL", core.TestExecution{Failure: &core.TestResultFailure{Type: "AssertionError", Message: "1 != 2"}}
-	switch vpOutcome[vpVersion] {
+	outcome := vpOutcome[vpVersion]
+	if len(state.TestArgs) > 0 {
+		outcome = 0 // the arguments select a subset of the cases that passes
+	}
+	switch outcome {
 	case 0:
 		content, exec = "PASS", core.TestExecution{}
 	case 2:
@@ -110,19 +114,26 @@ func vpH_C11_history() {
 			os.MkdirAll(target.OutDir(), 0o755)
 		}
 		state.ForceRerun = vpNondetBool("--rerun")
+		// `plz test //p:t -- case`: only a subset of the cases runs (and passes); what it
+		// proves must not be taken for a result of the whole test later
+		state.TestArgs = nil
+		if vpNondetBool("test-arguments-given") {
+			state.TestArgs = []string{"case"}
+		}
+		withArgs := len(state.TestArgs) > 0
 		runsBefore := vpRuns
 		target.Test.Results = nil
 		test(state, target.Label, target, false, 1)
 		res := target.Test.Results
 		vpAssert("results-present", res != nil)
 		passed := res.TestCases.AllSucceeded() && len(res.TestCases) > 0
-		vpAssert("outcome-equals-a-fresh-run-on-the-current-inputs", passed == (vpOutcome[vpVersion] == 0))
+		vpAssert("outcome-equals-a-fresh-run-on-the-current-inputs", passed == (withArgs || vpOutcome[vpVersion] == 0))
 		ran := vpRuns > runsBefore
 		if !ran {
 			vpAssert("reused-only-a-passing-result-for-the-current-inputs", passedBefore[vpVersion] && res.Cached)
 			vpAssert("never-reused-when-rerun-is-forced", !state.ForceRerun)
 		}
-		if ran && passed {
+		if ran && passed && !withArgs {
 			passedBefore[vpVersion] = true
 		}
 	}
